@@ -166,10 +166,15 @@ class Runner(object):
                 if bad is not None:
                     ok = False
                     i, aspect, e_, g_ = bad
+                    mod = None
+                    if not model.get("empty"):
+                        for (a, n_), mch in zip(ranges, model["image"]):
+                            if a <= va + i < a + n_:
+                                mod = short(R.unchunk(mch)[max(0, va + i - 4 - a):va + i + 12 - a])
                     self.violation(fmt, aspect, loader,
                                    "%s: byte at %#x (%s extent at %#x+%d) reads %s, the file's mapping gives %s"
                                    % (loader, va + i, kind, va, i, short(g_, 60), short(e_, 60)),
-                                   dict(case, address=va + i), short(got[max(0, i - 4):i + 12]), None,
+                                   dict(case, address=va + i), short(got[max(0, i - 4):i + 12]), mod,
                                    short([x[1] if x and x[0] in "bz" else x for x in exp[max(0, i - 4):i + 12]]), theorem)
                     break
             # the model must satisfy the declared mapping too (the theorem's reading of the property)
